@@ -143,6 +143,10 @@ def run_history(ctx, rng, script=None):
                     fill = rng.choice(['', '', '*', '0', ' ', '<', 'x', '-'])
                     al = rng.choice(['<', '>', '^']) if fill else rng.choice(['', '<', '>', '^'])
                     w = rng.choice(['', str(rng.randint(1, la + 4)), '0'])
+                    if w and rng.random() < 0.08:
+                        # (str accepts any decimal digits in a width)
+                        w = w.translate({ord('0') + k: 0x0660 + k for k in range(10)}) if rng.random() < 0.5 \
+                            else w[:-1] + chr(0xff10 + int(w[-1]))
                     rec.append(fill + al + w + rng.choice(['', 's']))
                 elif op == 'leaf':
                     rec = mk_leaf(rng)[2]
